@@ -22,7 +22,9 @@
 
 namespace cocls_verif {
 
-enum class op_t : int { load, store, xchg, cas, wait, notify, fence, na_read, na_write, conv, assign, mark };
+enum class op_t : int { load, store, xchg, cas, wait, notify, fence, na_read, na_write, conv, assign, mark,
+                        // operations of the interposed pthread layer (cocls_verif/pthread_shim.h)
+                        lock, unlock, cond_wait, cond_signal, cond_broadcast, thread_create, thread_start, thread_join };
 
 inline const char *op_name(op_t o) {
     switch (o) {
@@ -38,6 +40,14 @@ inline const char *op_name(op_t o) {
         case op_t::conv: return "load";     // implicit conversion == load(seq_cst)
         case op_t::assign: return "store";  // operator= == store(seq_cst)
         case op_t::mark: return "mark";     // explicit harness-level scheduling point
+        case op_t::lock: return "lock";
+        case op_t::unlock: return "unlock";
+        case op_t::cond_wait: return "cond_wait";
+        case op_t::cond_signal: return "cond_signal";
+        case op_t::cond_broadcast: return "cond_broadcast";
+        case op_t::thread_create: return "thread_create";
+        case op_t::thread_start: return "thread_start";
+        case op_t::thread_join: return "thread_join";
     }
     return "?";
 }
